@@ -490,12 +490,59 @@ def gen_case_b(rng, i, force_valid=False):
         for ref in rng.sample(g.refs, min(k, len(g.refs))):
             m = mutate_front(rng, ref, manifest)
             front = m if front is None else front + "+" + m
+    fix_novalue(objs)
     name = "Dev" if rng.random() < 0.85 else rng.choice(DEV_NAMES)
     return make_case_b(f"b{i}", d, syntax, name), {"adef": d, "front": front, "syntax": syntax, "dev_name": name}
 
 
+def fix_novalue(objs):
+    """The DSL parser accepts a command without `= addr` / `{ }` only as the LAST object of its list (anything else is a
+    syntax error, not a C14 matter): keep the value-less form only there, fall back to the basic form elsewhere."""
+    for i, o in enumerate(objs):
+        if o["kind"] == "block":
+            fix_novalue(o["objects"])
+        elif o["kind"] == "ref" and o["override"].get("_novalue") and i != len(objs) - 1:
+            del o["override"]["_novalue"]
+            o["override"]["address"] = 9
+
+
 def make_case_b(cid, d, syntax, name):
     return {"id": cid, "syntax": syntax, "text": render_b(d, syntax), "name": name, "want": ["mir", "facts"]}
+
+
+def corpus_b():
+    """Fixed definitions run first: the witnesses of D11 / D14, of the three mutation tests and of generator quirks met
+    while building the check."""
+    R = lambda n, a, fs=None: adef.mk_register(n, a, 8, fs or [])
+    cfg = lambda **kw: adef.mk_config(register_address_type="u32", command_address_type="u32", buffer_address_type="u32", **kw)
+    bo = lambda off: {"kind": "block", "address_offset": off}
+    out = [
+        ("d11_direct", "dsl", "Dev", [adef.mk_block("A", [adef.mk_ref("B", "A", bo(1000))], address_offset=0)]),
+        ("d11_indirect", "json", "Dev", [adef.mk_block("A", [adef.mk_ref("B", "c", bo(1000))], address_offset=0),
+                                          adef.mk_block("C", [adef.mk_ref("D", "a", bo(2000))], address_offset=0)]),
+        ("d14_missing", "dsl", "Dev", [R("Foo", 0), adef.mk_ref("Bar", "Missing", {"kind": "register", "address": 1, "reset_value": 5})]),
+        ("d14_kind", "yaml", "Dev", [adef.mk_command("Foo", 0, basic=True),
+                                      adef.mk_ref("Bar", "Foo", {"kind": "register", "address": 1, "reset_value": 5})]),
+        ("dangling_no_reset", "dsl", "Dev", [R("Foo", 0), adef.mk_ref("Bar", "Missing", {"kind": "register", "address": 1})]),
+        ("mut_a", "dsl", "Dev", [adef.mk_buffer("My_Reg", 1), adef.mk_block("a_b", [adef.mk_buffer("myReg", 2)], address_offset=0)]),
+        ("mut_b", "dsl", "Dev", [adef.mk_ref("BANK", "a_b_", {"kind": "register", "address": 501}), R("a_b", 1)]),
+        ("mut_c", "dsl", "Dev", [adef.mk_block("FOO", [adef.mk_command("irq", 1, basic=True),
+                                                        adef.mk_ref("q", "Irq", {"kind": "command", "address": 702})], address_offset=0)]),
+        ("novalue_last", "dsl", "Dev", [adef.mk_command("IRQ", 1, basic=True),
+                                         adef.mk_ref("lut", "Irq", {"kind": "command", "basic": True, "address": 77777, "_novalue": True})]),
+        ("deep_later_target", "toml", "MyDev", [adef.mk_ref("alias", "MY-REG", {"kind": "register", "address": 9, "reset_value": 1}),
+                                                 adef.mk_block("outer", [adef.mk_block("inner", [R("my_reg", 1)], address_offset=0)],
+                                                               address_offset=0)]),
+        ("method_collision", "dsl", "Dev", [R("aB1c", 0), R("ab1c", 1)]),
+        ("bad_device_name", "dsl", "my_dev", [R("r", 0)]),
+    ]
+    cases, metas = [], {}
+    for k, (tag, syntax, name, objs) in enumerate(out):
+        d = {"config": cfg(), "objects": objs}
+        c = make_case_b(f"b{k}", d, syntax, name)
+        cases.append(c)
+        metas[c["id"]] = {"adef": d, "front": None, "syntax": syntax, "dev_name": name, "corpus": tag}
+    return cases, metas
 
 
 def first_front_term(d, manifest):
@@ -690,9 +737,19 @@ def shrink_b(ctx, exe, case, meta):
 
 # ---------------------------------------------------------------------------------------------- run
 
+def get_exe(ctx):
+    """VERIF_GEN_RUNNER_EXE: use a pre-built gen_runner (mutation tests build it while /repo is modified and restore
+    /repo at once, so that the window in which /repo differs is only the build)."""
+    pre = os.environ.get("VERIF_GEN_RUNNER_EXE")
+    if pre:
+        ctx.log("using pre-built gen_runner", pre)
+        return pre, None
+    return gen_common.build_gen_runner(ctx)
+
+
 def run(ctx):
     info = vlib.coq_gate(ctx)
-    exe, err = gen_common.build_gen_runner(ctx)
+    exe, err = get_exe(ctx)
     if err:
         vlib.violation(ctx, {"broken": err}, no_input=True)
         vlib.write_evidence(ctx, info, {"evaluations": 0, "distinct_nontrivial": 0, "rule": RULE, "samples": []})
@@ -763,8 +820,9 @@ def run(ctx):
 
     # ---------------- part B
     nb = 2400 if quick else 24000
-    cases_b, meta_b = [], {}
-    for i in range(nb):
+    cases_b, meta_b = corpus_b()
+    ncorpus = len(cases_b)
+    for i in range(ncorpus, ncorpus + nb):
         c, m = gen_case_b(rng, i, force_valid=False)
         cases_b.append(c)
         meta_b[c["id"]] = m
@@ -783,6 +841,8 @@ def run(ctx):
         cls = impl.split(":")[1] if impl.startswith("error:") else impl.split(":")[0]
         hist["B_" + cls] += 1
         hist["B_syntax_" + c["syntax"]] += 1
+        if m.get("corpus"):
+            hist["B_corpus"] += 1
         if m["front"]:
             hist["B_front_mutation"] += 1
         if c["name"] != "Dev":
@@ -810,6 +870,29 @@ def run(ctx):
                 "D11": "block ref nested inside its own target: generator process dies with a stack overflow (model: no fuel suffices)",
                 "D14": "register ref overriding the reset value with a missing / non-register target: generator PANICS in "
                        "reset_values_converted (runs before refs_validated) instead of reporting the dangling ref"}.get(kf, kf))
+
+    # ---------------- observations (recorded, never decide the run; see notes/C14.md)
+    obs_cases = [
+        {"id": "O1", "syntax": "dsl", "name": "Dev", "want": ["facts"], "text":
+            "config { type RegisterAddressType = u8; }\nregister aB1c { const ADDRESS = 0; const SIZE_BITS = 8; },\n"
+            "register ab1c { const ADDRESS = 1; const SIZE_BITS = 8; }\n"},
+        {"id": "O2a", "syntax": "json", "name": "Dev", "want": ["noparse"], "text":
+            '{"config": {"register_address_type": "u8"}, "1reg": {"type": "register", "address": 0, "size_bits": 8}}'},
+        {"id": "O2b", "syntax": "json", "name": "Dev", "want": ["noparse"], "text":
+            '{"config": {"register_address_type": "u8"}, "_": {"type": "register", "address": 0, "size_bits": 8}}'},
+        {"id": "O2c", "syntax": "json", "name": "Dev", "want": ["noparse"], "text":
+            '{"config": {"register_address_type": "u8", "name_word_boundaries": ["Underscore"]}, '
+            '"my-reg": {"type": "register", "address": 0, "size_bits": 8}}'},
+    ]
+    obs_res = gen_common.run_gen(ctx, exe, obs_cases, tag="obs")
+    observations = {}
+    for c in obs_cases:
+        r = obs_res[c["id"]]
+        o = {"input": c["text"], "status": r.get("status"), "message": r.get("message")}
+        if r.get("facts"):
+            o["root_methods"] = [m["name"] for m in r["facts"]["blocks"][0]["methods"]]
+            o["structs"] = [s_["name"] for s_ in r["facts"]["field_sets"]]
+        observations[c["id"]] = o
 
     acc = n_ok / max(1, len(cases_b))
     if violations:
@@ -853,6 +936,7 @@ def run(ctx):
         "part_B": {"definitions": len(cases_b), "distinct_definitions": len(distinct_b), "accepted": n_ok,
                    "accepted_ratio": round(acc, 3), "known_finding_hits": dict(known_hits)},
         "known_finding_witnesses": known_witness,
+        "observations": observations,
         "targeted_classes_missing": missing,
         "samples": samples, "input_distribution": dict(sorted(hist.items())), "accepted_ratio": round(acc, 3),
         "disagreements": len(violations)})
@@ -864,7 +948,7 @@ def replay(ctx, path):
     if not fi:
         run(ctx)
         return
-    exe, err = gen_common.build_gen_runner(ctx)
+    exe, err = get_exe(ctx)
     if fi.get("part") == "B":
         c = {"id": "r", "syntax": fi["syntax"], "text": fi["text"], "name": fi.get("name", "Dev"), "want": ["mir", "facts"]}
         res = gen_common.run_gen(ctx, exe, [c], tag="replay")
